@@ -38,7 +38,7 @@ def cases(tier, seed):
     out = []
     for i in range(n):
         out.append({"solver": SOLVERS[i % len(SOLVERS)], "dt": DTS[(i // len(SOLVERS)) % len(DTS)], "closed": (i // 3) % 4 == 0,
-                    "base": ["origin", "origin", "moving", "rotating"][(i // 5) % 4]})
+                    "base": ["origin", "origin", "moving", "rotating"][(i // 5) % 4], "actuated": (i // len(SOLVERS)) % 3 == 1})
     return out
 
 
@@ -59,8 +59,9 @@ def run_case(spec, ctx):
     nsteps = int(rng.integers(20, 61))
     with gen.quiet(), warnings.catch_warnings():
         warnings.simplefilter("ignore")
-        kinds = None
-        S, bodies, joints, info = chaingen.build_chain(rng, closed=spec["closed"], base=spec["base"], t0=float(rng.normal()) if rng.random() < 0.3 else 0.0)
+        kinds = ["Revolute", "Spherical", "Revolute"] if spec.get("actuated") else None      # actuated chains (motors / PD controllers sit on revolute joints)
+        S, bodies, joints, info = chaingen.build_chain(rng, closed=spec["closed"], base=spec["base"], t0=float(rng.normal()) if rng.random() < 0.3 else 0.0, actuators=True,
+                                                       joint_kinds=kinds)
         det = {**spec, **info, "nsteps": nsteps}
         try:
             S.assemble(options=SolverOptions())
@@ -89,6 +90,8 @@ def run_case(spec, ctx):
         ctx.cls(f"solver:{solver}"); ctx.cls(f"dt:{dt}"); ctx.cls("closed" if spec["closed"] else "open"); ctx.cls(f"base:{spec['base']}")
         for jk in info["joints"]:
             ctx.cls(f"joint:{jk}")
+        for ak in info.get("actuators", []):
+            ctx.cls(f"actuator:{ak}:{solver}")
         g = np.array([S.g(ti, qi) for ti, qi in zip(t, q)])
         gd = np.array([S.g_dot(ti, qi, ui) for ti, qi, ui in zip(t, q, u)])
         scale = 1.0 + float(np.abs(q[:, :]).max())
@@ -140,6 +143,8 @@ def run_case(spec, ctx):
             for k in range(len(t)):
                 M = dense(S.M(t[k], q[k]))
                 R = M @ ud[k] - S.h(t[k], q[k], u[k]) - dense(S.W_g(t[k], q[k])) @ lag[k]
+                if S.nla_tau:
+                    R -= dense(S.W_tau(t[k], q[k])) @ S.la_tau(t[k], q[k], u[k])
                 if S.nla_c:
                     R -= dense(S.W_c(t[k], q[k])) @ lac[k]
                     cres = S.c(t[k], q[k], u[k], lac[k])
@@ -164,3 +169,12 @@ def run_case(spec, ctx):
                     break
     ctx.sig([det, S.q0.tolist()[:6]], nontrivial=bool(np.abs(u[-1]).max() > 1e-3))
     ctx.sample({**det, "max_g": float(np.abs(g).max()) if g.size else 0.0, "max_g_dot": float(np.abs(gd).max()) if gd.size else 0.0})
+
+
+def finalize(agg):
+    c = agg["classes"]
+    reasons = []
+    for s in ("ScipyIVP",):
+        if not any(k.startswith("actuator:") and k.endswith(":" + s) for k in c):
+            reasons.append(f"no actuated chain was integrated with {s}")
+    return reasons
